@@ -77,3 +77,16 @@ pub mod c15 {
         m as u32
     }
 }
+
+// C10 controls for the range-guard recognizer
+pub mod c10 {
+    pub fn guarded(v: &Vec<u32>) -> Result<u16, ()> {
+        if v.len() >= u16::MAX as usize { return Err(()); }
+        let idx = v.len() as u16;
+        Ok(idx)
+    }
+    pub fn unguarded(v: &Vec<u32>) -> u8 {
+        let n = v.len();
+        n as u8
+    }
+}
